@@ -87,7 +87,7 @@ def build(ctx):
 
     def replay(inputs, ctx):
         rc, out, cmd = native.compile_run("replay_K01", REPLAY_CPP,
-                                          [inputs.get("g_in_value", 0), inputs.get("g_in_value_size", 0), inputs.get("g_in_dst_sign", 0)])
+                                          [inputs.get("g_in_value", 0), inputs.get("g_in_value_size", 0), inputs.get("g_in_dst_sign", 0)], sanitize=True)
         return native.verdict_from_rc(rc, out), out, cmd
     kb.replayers["native"] = replay
     return kb
